@@ -72,6 +72,36 @@ GeneratorOK(x, y) ==
   /\ SMul(KnownPrimeFactors("order")[1], <<x, y>>) \in Reps(EId)     \* r * B = identity (r prime, B # O: order exactly r)
   /\ ~SameElement(<<x, y>>, EId)
 
+\* ---- the extension tower of BLS12-377: Fp2 = Fp[u]/(u^2 - beta), beta = -5; Fp6 = Fp2[v]/(v^3 - xi), xi = u;
+\*      Fp12 = Fp6[w]/(w^2 - v).  Frobenius coefficients are powers of the non-residues:
+\*        FP2_C1[i]  = beta^((p^i - 1)/2)          (in Fp)
+\*        FP6_C1[i]  = xi^((p^i - 1)/3),  FP6_C2[i] = xi^((2 p^i - 2)/3),  FP12_C1[i] = xi^((p^i - 1)/6)   (in Fp2)
+Pf == Modulus("Fp")
+Beta == NSub(Pf, N(5))
+F2(a0, a1) == <<NMod(a0, Pf), NMod(a1, Pf)>>
+F2One == F2(N(1), N(0))
+Xi == F2(N(0), N(1))
+F2Mul(a, b) == << MAdd(Pf, MMul(Pf, a[1], b[1]), MMul(Pf, Beta, MMul(Pf, a[2], b[2]))),
+                  MAdd(Pf, MMul(Pf, a[1], b[2]), MMul(Pf, a[2], b[1])) >>
+RECURSIVE F2PowR(_, _, _, _)
+F2PowR(base, bits, i, acc) ==                      \* most significant bit first
+  IF i = 0 THEN acc
+  ELSE LET sq == F2Mul(acc, acc)
+           nx == IF bits[i] = 1 THEN F2Mul(sq, base) ELSE sq
+       IN IF nx = nx THEN F2PowR(base, bits, i - 1, nx) ELSE acc
+F2Pow(base, e) == LET bits == NBits(e) IN F2PowR(base, bits, Len(bits), F2One)
+RECURSIVE PPow(_)
+PPow(i) == IF i = 0 THEN N(1) ELSE NMul(PPow(i - 1), Pf)
+TowerKonstOK(name, i, val) ==
+  LET pi == PPow(i) IN
+  CASE name = "FROBENIUS_COEFF_FP2_C1" -> NEq(val[1], MPow(Pf, Beta, NDiv(NSub(pi, N(1)), N(2))))
+    [] name = "FROBENIUS_COEFF_FP6_C1" -> F2(val[1], val[2]) = F2Pow(Xi, NDiv(NSub(pi, N(1)), N(3))) /\ NLess(val[1], Pf) /\ NLess(val[2], Pf)
+    [] name = "FROBENIUS_COEFF_FP6_C2" -> F2(val[1], val[2]) = F2Pow(Xi, NDiv(NSub(NMul(N(2), pi), N(2)), N(3))) /\ NLess(val[1], Pf) /\ NLess(val[2], Pf)
+    [] name = "FROBENIUS_COEFF_FP12_C1" -> F2(val[1], val[2]) = F2Pow(Xi, NDiv(NSub(pi, N(1)), N(6))) /\ NLess(val[1], Pf) /\ NLess(val[2], Pf)
+    [] name = "FP2_NONRESIDUE" -> NEq(val[1], Beta) /\ ~MIsSquare(Pf, Beta)
+    [] name = "FP6_NONRESIDUE" -> F2(val[1], val[2]) = Xi
+    [] OTHER -> FALSE
+
 \* ---- BLS12-377 -------------------------------------------------------------
 BlsX == KnownPrimeFactors("blsx")[1]
 BlsKonstOK(name, val) ==
